@@ -54,3 +54,8 @@ pub assume_specification[ log::LevelFilter::to_level ](f: &log::LevelFilter) -> 
 pub assume_specification[ log::Level::to_level_filter ](l: &log::Level) -> (r: log::LevelFilter)
     ensures r == (match *l { log::Level::Error => log::LevelFilter::Error, log::Level::Warn => log::LevelFilter::Warn, log::Level::Info => log::LevelFilter::Info,
         log::Level::Debug => log::LevelFilter::Debug, log::Level::Trace => log::LevelFilter::Trace });
+
+/// (not used by the code as it is) the facade's process-global maximum level: an oracle - any part of the process may set it
+pub uninterp spec fn facade_max_level() -> log::LevelFilter;
+pub assume_specification[ log::max_level ]() -> (r: log::LevelFilter)
+    ensures r == facade_max_level();
